@@ -39,9 +39,14 @@ def gen_cases(seed, tier):
         spec["x0"] = {s: spec["x0"][s] for s in keys}
         names = sorted(set(order))
         pts = [{"x": {s: rng.choice([0.0, 1.0, 2.0, 3.5, 6.0, G.dyadic(rng, 0, 9, 8)]) for s in names}, "t": G.dyadic(rng, 0, 4)} for _ in range(3)]
+        # construction histories: the last k reactions are added to the initialised model with create_reaction, with constants that are
+        # parameters of the model already and species that are declared already; nothing re-initialises it by hand  (seeded change S7_C03)
+        if rng.random() < 0.3 and len(spec["reactions"]) >= 2:
+            G.name_late_parameters(spec, rng.randint(1, len(spec["reactions"]) - 1))
+            spec["species"] = spec["species"] + [s_ for s_ in order if s_ not in spec["species"]]
         case = {"spec": spec, "names": names, "points": pts, "unset": None}
         cand = sorted(k_ for k_ in spec["parameters"] if not k_.startswith(("kg_", "Kg_")))
-        if rng.random() < 0.15 and cand:
+        if rng.random() < 0.15 and cand and not spec.get("late_reactions"):
             u = rng.choice(cand); case["unset"] = u
             spec["parameters"] = {k_: v for k_, v in spec["parameters"].items() if k_ != u}
         cases.append(case)
@@ -81,8 +86,13 @@ def impl_case(case):
     s2i = M.get_species2index(); names = case["names"]
     order = [None] * len(s2i)
     for s, i in s2i.items(): order[i] = names.index(s)
-    S = np.asarray(M.py_get_update_array()); Sd = np.asarray(M.py_get_delay_update_array())
-    I = ModelCSimInterface(M); I.py_prep_deterministic_simulation()
+    if case["spec"].get("late_reactions"):
+        I = ModelCSimInterface(M)          # the first user after the edit: it has to re-initialise the model
+        S = np.asarray(M.py_get_update_array()); Sd = np.asarray(M.py_get_delay_update_array())
+    else:
+        S = np.asarray(M.py_get_update_array()); Sd = np.asarray(M.py_get_delay_update_array())
+        I = ModelCSimInterface(M)
+    I.py_prep_deterministic_simulation()
     ds = []; rates = []
     for k_pt, pt in enumerate(case["points"]):
         # the derivative is a function of (state, time) only: preparing the same interface again between evaluations (as every
@@ -170,6 +180,8 @@ def oracle(case, r):
     if not r or "S" not in r: return "implementation failed: %s" % json.dumps(r)[:400]
     names = case["names"]; nsp, nrx = r["shape"]
     if sorted(r["order"]) != sorted(set(r["order"])) : return "species index map is not injective"
+    if nrx != len(spec["reactions"]) or len(r["S"]) != nsp * nrx or len(r["Sd"]) != nsp * nrx:
+        return "the stoichiometric matrices have %d reaction columns (shape %r), the reaction list has %d reactions" % (nrx, r["shape"], len(spec["reactions"]))
     for i, sid in enumerate(r["order"]):
         s = names[sid]
         for j, rx in enumerate(spec["reactions"]):
